@@ -36,8 +36,12 @@ type c14Dest struct {
 }
 type c14Input struct {
 	Prefix string    `json:"prefix"`
-	Rules  []c14Def  `json:"rules"`
-	Events []c14Dest `json:"events"`
+	Rules  []c14Def  `json:"rules,omitempty"`
+	Events []c14Dest `json:"events,omitempty"`
+	// collector level: names of the rules-file entries (each a rules sampler that names itself in the
+	// decision reason) and the traces driven, in this order, through one collector worker
+	CollNames  []string  `json:"coll_names,omitempty"`
+	CollTraces []c14Dest `json:"coll_traces,omitempty"`
 }
 
 func init() {
@@ -111,7 +115,53 @@ func c14Key(r *rand.Rand) (string, string) {
 var c14Names = []string{"prod", "dev", "ds1", "ds2", "pfx.ds1", "pfx.ds2", "my env", "prod.ds1"}
 var c14FieldPool = []string{"a", "b", "status", "root.svc", "root.a", "root.b", "?.NUM_DESCENDANTS", "http.route", "svc"}
 
+// a well-formed key of the given class
+func c14GoodKey(r *rand.Rand, classic bool) string {
+	switch {
+	case classic && r.Intn(2) == 0:
+		return c14RandFrom(r, c14Hex, 32)
+	case classic:
+		return "hc" + c14RandFrom(r, "abcdefghijklmnopqrstuvwxyz", 1) + "ic_" + c14RandFrom(r, c14Alnum, 58)
+	case r.Intn(2) == 0:
+		return c14RandFrom(r, c14Alnum, 22)
+	}
+	return "hc" + c14RandFrom(r, "abcdefghijklmnopqrstuvwxyz", 1) + "ik_" + c14RandFrom(r, c14Alnum, 58)
+}
+
+// collector-level case: few names, equal bare names reachable through a classic-key dataset (with
+// DatasetPrefix: selector "pfx.X") and through an environment key (selector "X"), both arrival orders
+func c14GenColl(r *rand.Rand) c14Input {
+	in := c14Input{Prefix: []string{"pfx", "pfx", "pfx", "", "X"}[r.Intn(5)]}
+	pool := []string{"X", "Y", "pfx.X", "pfx.Y", "X.X"}
+	in.CollNames = []string{"__default__"}
+	for _, j := range r.Perm(len(pool))[:1+r.Intn(4)] {
+		in.CollNames = append(in.CollNames, pool[j])
+	}
+	bare := []string{"X", "Y", "pfx.X", "other"}
+	n := 2 + r.Intn(4)
+	for k := 0; k < n; k++ {
+		name := bare[r.Intn(len(bare))]
+		classic := r.Intn(2) == 0
+		d := c14Dest{Key: c14GoodKey(r, classic), Env: name, Dataset: name}
+		if r.Intn(3) == 0 { // the field the key class does not use carries another name
+			if classic {
+				d.Env = bare[r.Intn(len(bare))]
+			} else {
+				d.Dataset = bare[r.Intn(len(bare))]
+			}
+		}
+		in.CollTraces = append(in.CollTraces, d)
+		if r.Intn(2) == 0 { // the same bare name through the other key class, right after
+			in.CollTraces = append(in.CollTraces, c14Dest{Key: c14GoodKey(r, !classic), Env: name, Dataset: name})
+		}
+	}
+	return in
+}
+
 func c14Gen(r *rand.Rand, tier string, i int) any {
+	if i%4 == 1 {
+		return c14GenColl(r)
+	}
 	in := c14Input{Prefix: []string{"", "", "pfx", "prod", "x"}[r.Intn(5)]}
 	in.Rules = append(in.Rules, c14Def{Name: "__default__", Type: 1 + r.Intn(7)})
 	perm := r.Perm(len(c14Names))
@@ -294,6 +344,9 @@ func c14Run(raw json.RawMessage) (Case, error) {
 	if err := json.Unmarshal(raw, &in); err != nil {
 		return Case{}, err
 	}
+	if len(in.CollTraces) > 0 {
+		return c14RunColl(in)
+	}
 	// Go map semantics: one definition per name (the first wins here, the YAML gets the same list)
 	seen := map[string]bool{}
 	var rules []c14Def
@@ -383,10 +436,62 @@ func c14Run(raw json.RawMessage) (Case, error) {
 	if in.Prefix != "" {
 		tags = append(tags, "dataset-prefix")
 	}
-	coq := fmt.Sprintf("(Build_case %s %s %s)", c14Bytes(in.Prefix), cq.List(rs), cq.List(es))
+	coq := fmt.Sprintf("(Build_case %s %s %s [])", c14Bytes(in.Prefix), cq.List(rs), cq.List(es))
 	b, _ := json.Marshal(in)
 	return Case{Coq: coq, Key: string(b), Nontriv: nontriv, Tags: sampDedupTags(tags),
 		Summary: map[string]any{"prefix": in.Prefix, "rules": in.Rules, "events": human}}, nil
+}
+
+func c14RunColl(in c14Input) (Case, error) {
+	seen := map[string]bool{}
+	var names []string
+	for _, n := range append([]string{"__default__"}, in.CollNames...) {
+		if !seen[n] {
+			seen[n] = true
+			names = append(names, n)
+		}
+	}
+	tagsOut, err := c14RunCollector(in.Prefix, names, in.CollTraces)
+	if err != nil {
+		return Case{}, err
+	}
+	var rs, cs, human, tags []string
+	for i, n := range names {
+		rs = append(rs, fmt.Sprintf("(%s, Build_sdef %s [])", c14Bytes(n), cq.N(uint64(i+1))))
+	}
+	nontriv := false
+	bareSeen := map[string]map[bool]bool{}
+	for i, d := range in.CollTraces {
+		cs = append(cs, fmt.Sprintf("(Build_cobs (Build_dest %s %s %s) %s)", c14Bytes(d.Key), c14Bytes(d.Env), c14Bytes(d.Dataset), cq.N(tagsOut[i])))
+		classic := config.IsLegacyAPIKey(d.Key)
+		bare := d.Env
+		if classic {
+			bare = d.Dataset
+		}
+		decided := "none"
+		if tagsOut[i] >= 1 && int(tagsOut[i]) <= len(names) {
+			decided = names[tagsOut[i]-1]
+		}
+		human = append(human, fmt.Sprintf("trace %d classic=%v env=%q dataset=%q -> decided by the sampler of %q", i, classic, d.Env, d.Dataset, decided))
+		if bareSeen[bare] == nil {
+			bareSeen[bare] = map[bool]bool{}
+		}
+		bareSeen[bare][classic] = true
+		if len(bareSeen[bare]) == 2 {
+			nontriv = true
+		}
+	}
+	tags = append(tags, "collector-level")
+	if nontriv {
+		tags = append(tags, "same-bare-name-both-key-classes")
+	}
+	if in.Prefix != "" {
+		tags = append(tags, "dataset-prefix")
+	}
+	coq := fmt.Sprintf("(Build_case %s %s [] %s)", c14Bytes(in.Prefix), cq.List(rs), cq.List(cs))
+	b, _ := json.Marshal(in)
+	return Case{Coq: coq, Key: string(b), Nontriv: nontriv, Tags: tags,
+		Summary: map[string]any{"prefix": in.Prefix, "rules_entries": names, "collector": human}}, nil
 }
 
 func c14Shrink(raw json.RawMessage) []json.RawMessage {
@@ -398,6 +503,23 @@ func c14Shrink(raw json.RawMessage) []json.RawMessage {
 	emit := func(c c14Input) {
 		b, _ := json.Marshal(c)
 		out = append(out, b)
+	}
+	if len(in.CollTraces) > 0 {
+		if len(in.CollTraces) > 1 {
+			for i := range in.CollTraces {
+				c := in
+				c.CollTraces = append(append([]c14Dest{}, in.CollTraces[:i]...), in.CollTraces[i+1:]...)
+				emit(c)
+			}
+		}
+		for i, n := range in.CollNames {
+			if n != "__default__" {
+				c := in
+				c.CollNames = append(append([]string{}, in.CollNames[:i]...), in.CollNames[i+1:]...)
+				emit(c)
+			}
+		}
+		return out
 	}
 	if len(in.Events) > 1 {
 		for i := range in.Events {
